@@ -103,6 +103,9 @@ deriving Repr, Inhabited
 structure Env where
   norm : Opq → Str → Option Str
   normFloat : Str → Option Str
+  /-- the library parser raises something pydantic does not turn into a validation error
+  (pint: `tokenize.TokenError`, `AttributeError`): the whole validation is aborted -/
+  crash : Opq → Str → Bool := fun _ _ => false
 
 inductive Err
   | type      -- wrong kind of value
@@ -110,6 +113,7 @@ inductive Err
   | missing   -- required field missing
   | extra     -- extra fields not permitted
   | unhashable
+  | crash     -- an exception that is no validation error: aborts, no Union fall-through
 deriving DecidableEq, Repr, Inhabited
 
 /-! ## Python helpers -/
@@ -324,11 +328,15 @@ def mapOk {α β : Type} (f : α → β) : Except Err α → Except Err β
   | .ok a => .ok (f a)
   | .error e => .error e
 
-/-- sequence a list of results -/
+/-- sequence a list of results: pydantic validates every item and collects the validation
+errors, so a crash anywhere wins; otherwise the first error -/
 def allOk {α : Type} : List (Except Err α) → Except Err (List α)
   | [] => .ok []
   | .ok a :: r => mapOk (fun l => a :: l) (allOk r)
-  | .error e :: _ => .error e
+  | .error e :: r =>
+    match allOk r with
+    | .error .crash => .error .crash
+    | _ => .error e
 
 def mkSet (vs : List PyVal) : Except Err PyVal :=
   if vs.all hashable then .ok (.set (dedup vs)) else .error .unhashable
@@ -349,9 +357,11 @@ def decode (env : Env) : Ty → Json → Except Err PyVal
   | .cstr k, .str s => if recog k s then .ok (.str s) else .error .value
   | .cstr _, _ => .error .type
   | .opq k, .str s =>
-    match env.norm k s with
-    | some n => .ok (.opq k n)
-    | none => .error .value
+    if env.crash k s then .error .crash
+    else
+      match env.norm k s with
+      | some n => .ok (.opq k n)
+      | none => .error .value
   | .opq _, _ => .error .type
   | .lit vs, j => decodeLit vs j
   | .opt _, .null => .ok .none
@@ -384,12 +394,14 @@ def decodeUnion (env : Env) : List Ty → Json → Except Err PyVal
   | t :: ts, j =>
     match decode env t j with
     | .ok v => .ok v
+    | .error .crash => .error .crash
     | .error _ => decodeUnion env ts j
 def decodeFields (env : Env) : List Field → List (Str × Json) → Except Err (List (Str × PyVal))
   | [], _ => .ok []
   | f :: fs, kvs =>
     match decodeField env f kvs, decodeFields env fs kvs with
     | .ok v, .ok r => .ok (v :: r)
+    | _, .error .crash => .error .crash
     | .error e, _ => .error e
     | _, .error e => .error e
 def decodeField (env : Env) : Field → List (Str × Json) → Except Err (Str × PyVal)
